@@ -4,6 +4,7 @@ package main
 
 import (
 	"fmt"
+	"net/textproto"
 	"go/types"
 	"math"
 	"sort"
@@ -296,9 +297,12 @@ type Decls struct {
 	funs []string // define-funs (spec functions), emitted after declarations
 	funSet map[string]bool
 	axioms []string
+	strLits map[string]bool // string literals seen in code and contracts of this unit
 }
 
-func newDecls() *Decls { return &Decls{set: map[string]string{}, funSet: map[string]bool{}} }
+func newDecls() *Decls {
+	return &Decls{set: map[string]string{}, funSet: map[string]bool{}, strLits: map[string]bool{}}
+}
 
 func (d *Decls) constant(name, sort string) string {
 	q := quoteSym(name)
@@ -331,6 +335,38 @@ func (d *Decls) axiom(t string) {
 	}
 	d.funSet[a] = true
 	d.axioms = append(d.axioms, a)
+}
+
+// litAxioms: the uninterpreted string functions agree with govc's own evaluation on every literal of the unit.
+func (d *Decls) litAxioms() string {
+	var b strings.Builder
+	canonName := quoteSym("fn!net/http.CanonicalHeaderKey")
+	_, hasCanon := d.set[canonName]
+	_, hasFold := d.set["fn!fold"]
+	_, hasLower := d.set["fn!strings.ToLower"]
+	if !hasCanon && !hasFold && !hasLower {
+		return ""
+	}
+	var lits []string
+	for l := range d.strLits {
+		lits = append(lits, l)
+	}
+	sort.Strings(lits)
+	for _, l := range lits {
+		if !isASCII(l) {
+			continue
+		}
+		if hasCanon {
+			b.WriteString(fmt.Sprintf("(assert (= (%s %s) %s))\n", canonName, strLit(l), strLit(textproto.CanonicalMIMEHeaderKey(l))))
+		}
+		if hasFold {
+			b.WriteString(fmt.Sprintf("(assert (= (fn!fold %s) %s))\n", strLit(l), strLit(strings.ToLower(l))))
+		}
+		if hasLower {
+			b.WriteString(fmt.Sprintf("(assert (= (fn!strings.ToLower %s) %s))\n", strLit(l), strLit(strings.ToLower(l))))
+		}
+	}
+	return b.String()
 }
 
 func (d *Decls) text() string {
